@@ -564,3 +564,125 @@ Proof.
   all: try (left; reflexivity).
   all: try (right; lia).
 Qed.
+
+(* ---- more about read_tlv: the element alone, and bytes stay bytes ---- *)
+
+Lemma take_bytes_exact n v r : take_bytes n (v ++ r) = Some (v, r) -> take_bytes n v = Some (v, []).
+Proof.
+  intros H. apply take_bytes_spec in H as [_ HL]. rewrite <- HL.
+  rewrite <- (app_nil_r v) at 2. apply take_bytes_app.
+Qed.
+
+(* what was read is, on its own, read the same way and completely *)
+Theorem read_tlv_trim s tag h c rest : read_tlv s = Some (tag, h, c, rest) -> read_tlv (h ++ c) = Some (tag, h, c, []).
+Proof.
+  unfold read_tlv. destruct s as [|t [|lb r]]; try discriminate.
+  destruct (t mod 32 =? 31) eqn:Et; [discriminate|].
+  destruct (lb <? 128) eqn:El.
+  - destruct (take_bytes lb r) as [[c0 rest0]|] eqn:E; [|discriminate].
+    intros H; inversion H; subst. cbn [app]. rewrite Et, El.
+    pose proof (take_bytes_spec _ _ _ _ E) as [-> _]. now rewrite (take_bytes_exact _ _ _ E).
+  - destruct ((lb - 128 =? 0) || (4 <? lb - 128)) eqn:Ell; [discriminate|].
+    destruct (take_bytes (lb - 128) r) as [[lbs r2]|] eqn:E; [|discriminate].
+    destruct (be_dec lbs <? 128) eqn:G1; [discriminate|].
+    destruct (be_dec lbs / 256 ^ (lb - 128 - 1) =? 0) eqn:G2; [discriminate|].
+    destruct (4294967296 <=? 2 + (lb - 128) + be_dec lbs) eqn:G3; [discriminate|].
+    destruct (take_bytes (be_dec lbs) r2) as [[c0 rest0]|] eqn:E2; [|discriminate].
+    intros H; inversion H; subst. cbn [app]. rewrite Et, El, Ell.
+    pose proof (take_bytes_spec _ _ _ _ E) as [-> HL1].
+    pose proof (take_bytes_spec _ _ _ _ E2) as [-> HL2].
+    rewrite <- HL1 at 1. rewrite take_bytes_app. rewrite G1, G2, G3.
+    now rewrite (take_bytes_exact _ _ _ E2).
+Qed.
+
+Lemma read_tlv_bytes_ok s tag h c rest : bytes_ok s = true -> read_tlv s = Some (tag, h, c, rest) ->
+  bytes_ok h = true /\ bytes_ok c = true /\ bytes_ok rest = true.
+Proof.
+  intros Hok H. apply read_tlv_split in H as (-> & _). rewrite !bytes_ok_app in Hok.
+  apply andb_prop in Hok as [A B]. apply andb_prop in B as [B C]. auto.
+Qed.
+
+Lemma read_asn1_bytes_ok tag s c rest : bytes_ok s = true -> read_asn1 tag s = Some (c, rest) ->
+  bytes_ok c = true /\ bytes_ok rest = true.
+Proof.
+  unfold read_asn1. intros Hok. destruct (read_tlv s) as [[[[t h] c0] r0]|] eqn:E; [|discriminate].
+  destruct (t =? tag); [|discriminate]. intros H; inversion H; subst.
+  now apply (read_tlv_bytes_ok _ _ _ _ _ Hok) in E as (_ & A & B).
+Qed.
+
+(* ReadASN1 accepts exactly one encoding of (tag, content) *)
+Lemma read_asn1_is_emit tag s c rest : bytes_ok s = true -> read_asn1 tag s = Some (c, rest) ->
+  s = emit_tlv tag c ++ rest.
+Proof.
+  unfold read_asn1. intros Hok. destruct (read_tlv s) as [[[[t h] c0] r0]|] eqn:E; [|discriminate].
+  destruct (t =? tag) eqn:Et; [|discriminate]. intros H; inversion H; subst. apply N.eqb_eq in Et. subst.
+  eapply read_tlv_is_emit; eassumption.
+Qed.
+
+(* ---- unsigned INTEGER contents ---- *)
+
+Lemma strip0_no_lead bs : match strip0 bs with 0 :: _ => False | _ => True end.
+Proof. induction bs as [|b r IH]; [exact I|]. cbn [strip0]. destruct b; [exact IH|exact I]. Qed.
+
+Lemma strip0_be_dec bs : be_dec (strip0 bs) = be_dec bs.
+Proof.
+  induction bs as [|b r IH]; [reflexivity|]. cbn [strip0]. destruct b as [|p]; [|reflexivity].
+  rewrite IH. unfold be_dec. cbn [be_dec_acc]. reflexivity.
+Qed.
+
+(* a list without leading zero is left alone *)
+Lemma strip0_id b r : b <> 0 -> strip0 (b :: r) = b :: r.
+Proof. intros H. cbn [strip0]. destruct b; [contradiction|reflexivity]. Qed.
+
+Lemma strip1_id b r : b <> 0 -> strip1 (b :: r) = b :: r.
+Proof. intros H. cbn [strip1]. destruct b; [contradiction|reflexivity]. Qed.
+
+(* the content readASN1Bytes accepts is the content addASN1IntBytes writes for what it returned (unless that is zero) *)
+Theorem uint_content_dec c v : bytes_ok c = true -> uint_dec_bytes c = Some v -> be_dec v <> 0 ->
+  uint_content v = Some c /\ (exists b r, v = b :: r /\ b <> 0).
+Proof.
+  unfold uint_dec_bytes. intros Hok. destruct (check_integer c) eqn:Hc; [|discriminate].
+  destruct c as [|b0 r]; [discriminate|]. destruct (128 <=? b0) eqn:E0; [discriminate|].
+  intros H; inversion H; subst; clear H. intros Hnz. apply N.leb_gt in E0.
+  destruct b0 as [|p].
+  - (* leading zero: either the value is zero or the next byte has its top bit set *)
+    destruct r as [|b1 r'].
+    + exfalso. apply Hnz. reflexivity.
+    + cbn [check_integer] in Hc. change (0 =? 0) with true in Hc. change (0 =? 255) with false in Hc.
+      cbn [andb orb] in Hc. rewrite orb_false_r in Hc. apply negb_true_iff in Hc. apply N.ltb_ge in Hc.
+      assert (Hb1 : b1 <> 0) by lia.
+      change (strip1 (0 :: b1 :: r')) with (strip1 (b1 :: r')). rewrite (strip1_id _ _ Hb1).
+      unfold uint_content. rewrite (strip0_id _ _ Hb1).
+      replace (128 <=? b1) with true by (symmetry; apply N.leb_le; lia).
+      split; [reflexivity|eauto].
+  - assert (Hb : N.pos p <> 0) by discriminate.
+    rewrite ?(strip1_id _ _ Hb). unfold uint_content. rewrite (strip0_id _ _ Hb).
+    replace (128 <=? N.pos p) with false by (symmetry; apply N.leb_gt; lia).
+    split; [reflexivity|eauto].
+Qed.
+
+(* and what addASN1IntBytes writes is read back as the stripped magnitude *)
+Theorem uint_dec_content v c : bytes_ok v = true -> uint_content v = Some c ->
+  uint_dec_bytes c = Some (strip0 v) /\ (exists b r, strip0 v = b :: r /\ b <> 0).
+Proof.
+  unfold uint_content. intros Hok. pose proof (strip0_no_lead v) as Hn.
+  assert (Hok' : bytes_ok (strip0 v) = true).
+  { clear Hn. induction v as [|b r IH]; [reflexivity|]. cbn [strip0]. cbn [bytes_ok forallb] in Hok.
+    apply andb_prop in Hok as [A B]. destruct b; [now apply IH|]. cbn [bytes_ok forallb]. now rewrite A, B. }
+  destruct (strip0 v) as [|b0 r] eqn:Es; [discriminate|].
+  assert (Hb0 : b0 <> 0) by (destruct b0; [contradiction|discriminate]).
+  cbn [bytes_ok forallb] in Hok'. apply andb_prop in Hok' as [Hb _]. unfold byte_ok in Hb. apply N.ltb_lt in Hb.
+  destruct (128 <=? b0) eqn:E0; intros H; inversion H; subst; clear H.
+  - apply N.leb_le in E0. unfold uint_dec_bytes. cbn [check_integer].
+    change (0 =? 0) with true. change (0 =? 255) with false.
+    replace (b0 <? 128) with false by (symmetry; apply N.ltb_ge; lia). cbn [andb orb negb].
+    change (128 <=? 0) with false. cbv iota.
+    change (strip1 (0 :: b0 :: r)) with (strip1 (b0 :: r)). rewrite (strip1_id _ _ Hb0). split; [reflexivity|eauto].
+  - apply N.leb_gt in E0. unfold uint_dec_bytes.
+    assert (Hc : check_integer (b0 :: r) = true).
+    { destruct r as [|b1 r']; [reflexivity|]. cbn [check_integer].
+      replace (b0 =? 0) with false by (symmetry; now apply N.eqb_neq).
+      replace (b0 =? 255) with false by (symmetry; apply N.eqb_neq; lia). reflexivity. }
+    rewrite Hc. replace (128 <=? b0) with false by (symmetry; apply N.leb_gt; lia).
+    rewrite (strip1_id _ _ Hb0). split; [reflexivity|eauto].
+Qed.
